@@ -47,6 +47,7 @@ structure St where
   cycle : Nat := 0
   blit : Option Nat := none
   regInit : Array BV4 := #[]   -- seq mode: expected power-on content of every register (from the requested reset value)
+  envHist : Array (Array BV4) := #[]  -- stimulus (pin / pad values) of every stimulus
   xvHist : Array (Array BV4) := #[]   -- expression values of every stimulus (for the post-processed re-simulation)
   postRuns : Nat := 0
   postValues : Nat := 0
